@@ -102,7 +102,34 @@ func plan(thorough bool) []item {
 	for _, f := range formats {
 		items = append(items, item{"copy", TableSpec{Mask: full, Layout: 1, Format: f}})
 	}
-	return items
+	// Interleave the three parts proportionally (each part stays in its simplest-first order) so
+	// that a run cut short by the budget has covered the small tables of every part.
+	var parts [3][]item
+	for _, it := range items {
+		switch it.part {
+		case "point":
+			parts[0] = append(parts[0], it)
+		case "span":
+			parts[1] = append(parts[1], it)
+		default:
+			parts[2] = append(parts[2], it)
+		}
+	}
+	out := make([]item, 0, len(items))
+	var next [3]int
+	for len(out) < len(items) {
+		best, bestFrac := -1, 2.0
+		for p := range parts {
+			if next[p] < len(parts[p]) {
+				if f := float64(next[p]) / float64(len(parts[p])); f < bestFrac {
+					best, bestFrac = p, f
+				}
+			}
+		}
+		out = append(out, parts[best][next[best]])
+		next[best]++
+	}
+	return out
 }
 
 func TestCheck(t *testing.T) {
@@ -139,13 +166,22 @@ func TestCheck(t *testing.T) {
 				counts[2]++
 			}
 		}
+		// The first table of each part and a few tables spread over the plan contribute one sample each.
+		stride := len(items)/3 + 1
+		first := map[string]int{}
+		for i, it := range items {
+			if _, ok := first[it.part]; !ok {
+				first[it.part] = i
+			}
+		}
 		done, complete := c.Each(len(items), func(i int) {
 			e := newEnv(c, thorough)
+			e.sample = first[items[i].part] == i || (i > 0 && i%stride == 0)
 			e.runItem(items[i], i)
 			e.close()
 		})
 		if !complete {
-			c.Incomplete(fmt.Sprintf("budget expired after %d of %d physical tables (order: point tables by subset mask, then span tables, then copy tables); every finished table was explored completely", done, len(items)))
+			c.Incomplete(fmt.Sprintf("budget expired after %d of %d physical tables (point, span and copy tables interleaved proportionally, each part ordered by subset mask / menu index); every finished table was explored completely", done, len(items)))
 		}
 		ps := positionsFor(thorough, "")
 		px := positionsFor(thorough, synSuffix)
